@@ -37,7 +37,7 @@ def build(depth, pre):
 
 class IlaSub(Sub):
     name = "ila"
-    budget = {"quick": 4000, "thorough": 50000}
+    budget = {"quick": 6000, "thorough": 60000}
     rule = ("IntegratedLogicAnalyzer(sample_depth from 15 values 1..70, samples_pretrigger 0..4) capturing three probes "
             "(12 bits); per case 1..2 captures: random input waveform (new value every cycle), trigger strobe (1..3 cycles "
             "wide) at a generated cycle, extra trigger pulses inside the capture, then every sample read back in a "
